@@ -1115,3 +1115,22 @@ def n4d_then_filter(text):
             recs.append(dict(rule='N4e', before='X.filter(|%s| P)' % name, after='(match X { Some(v__) => if P { Some(v__) } else { None }, None => None })'))
         text = apply_edits(text, edits)
     return text, recs
+
+
+def n21_rename_has(text):
+    """N21: an identifier `has` (parameter of UnprotectedStorage::clean) -> `has_`: in this Verus `has` is an infix operator
+    keyword of the verus! macro (`!has.contains(i)` does not parse). Alpha-renaming of a local."""
+    toks = lex(text)
+    c = code(toks)
+    edits = []
+    for n, k in enumerate(c):
+        t = toks[k]
+        if t.kind == 'ident' and t.text == 'has':
+            prev = toks[c[n - 1]].text if n > 0 else ''
+            nxt = toks[c[n + 1]].text if n + 1 < len(c) else ''
+            if prev in ('.', '::') or nxt == '(':
+                continue
+            edits.append((t.start, t.end, 'has_'))
+    if not edits:
+        return text, []
+    return apply_edits(text, edits), [dict(rule='N21', before='identifier `has`', after='`has_` (%d occurrence(s))' % len(edits))]
